@@ -374,7 +374,7 @@ func init() {
 			"replace":        map[string]int{"string_len": replLen, "old_len": 2, "new_len": 1},
 			"substr_indexes": "0 <= start <= runes(s), 0 <= length <= runes(s)-start",
 		}
-		r.Rule = "every (string, pattern) pair over the alphabet up to the length bounds for like, ~ and ~*; every string up to the bound for upper, lower, reverse, len; every (string, start[, length]) in range for substr; every (string, non-empty needle) for position; every (string, non-empty old, new) for replace; each evaluated once on the real Function and compared with the reference written in the check. non-trivial = distinct (operator, string, pattern) where the pattern contains a wildcard, escape or regex metacharacter and implementation and reference agree on TRUE; plus distinct (function, arguments) with a multibyte argument where the agreed result differs from the first argument (replace: keyed on (string, old) with old occurring in string)"
+		r.Rule = "every (string, pattern) pair over the alphabet up to the length bounds for like, ~ and ~*; every string up to the bound for upper, lower, reverse, len; every (string, start[, length]) in range for substr; every (string, non-empty needle) for position; every (string, non-empty old, new) for replace; each evaluated once on the real Function and compared with the reference written in the check; plus, for like, ~ and ~*, every ordered pair of a menu of 12-18 patterns that differ by case or by an escape (\\d/\\D, a/A, [a-z]/[A-Z], a./a\\. ...) evaluated one after the other on a fresh operator instance (its compiled-pattern cache must not leak one pattern's answer to another). non-trivial = distinct (operator, string, pattern) where the pattern contains a wildcard, escape or regex metacharacter and implementation and reference agree on TRUE; plus distinct (function, arguments) with a multibyte argument where the agreed result differs from the first argument (replace: keyed on (string, old) with old occurring in string)"
 		r.Assume(
 			"alphabet: the design lists 21 symbols but counts 22; 'É' was added as the 22nd",
 			"LIKE: a dangling backslash or a backslash before anything but _ % \\ is undefined: agreement when the implementation rejects it, otherwise skipped",
@@ -435,6 +435,9 @@ func init() {
 				}
 			}
 		}()
+
+		// ---------- phase 0: ordered pairs of patterns on one operator instance (the operators cache compiled patterns) ----------
+		c12Sequences(r, report)
 
 		// ---------- phase 1: like, ~, ~* ----------
 		ops := []string{"like", "~", "~*"}
